@@ -600,98 +600,123 @@ def list1Wrap (s : T) (p : Str) (g : Option T) (n : Nat) (r : Option (List Q × 
   | some (qs, n1) =>
     some (quad s p (.bnode (.fresh n)) g :: qs ++ [quad (.bnode (.fresh n)) rdfRest (.iri rdfNil) g], n1)
 
+/-- sequencing of two evaluations -/
+def andThen (r : Option (List Q × Nat)) (f : Nat → Option (List Q × Nat)) : Option (List Q × Nat) :=
+  match r with
+  | none => none
+  | some (q1, n1) =>
+    match f n1 with
+    | none => none
+    | some (q2, n2) => some (q1 ++ q2, n2)
+
+/-- the quads of `@type` -/
+def typeQuads (c : Ctx) (g : Option T) (s : T) (v : Json) (n : Nat) : Option (List Q × Nat) :=
+  (evalTypes c v).map fun ts => (ts.map fun t => quad s rdfType t g, n)
+
+/-- a value object as a value of `p` -/
+def valueObjQuads (c : Ctx) (g : Option T) (s : T) (p : Str) (ms : List (Str × Json)) (n : Nat) : Option (List Q × Nat) :=
+  (evalValueObj c ms).map fun
+    | some o => ([quad s p o g], n)
+    | none => ([], n)
+
 mutual
 /-- the members of a node object with subject `s`, evaluated in graph `g` under the context `c`
     (already updated by the object's own `@context`) -/
 def evalMembers (c : Ctx) (g : Option T) (s : T) (dflt : Bool) : List (Str × Json) → Nat → Option (List Q × Nat)
   | [], n => some ([], n)
-  | (k, v) :: ms, n =>
-    let here : Option (List Q × Nat) :=
-      match classifyKey c k with
-      | .context => some ([], n)
-      | .id => some ([], n)
-      | .type => (evalTypes c v).map fun ts => (ts.map fun t => quad s rdfType t g, n)
-      | .graph =>
-        match v with
-        | .arr xs => evalNodes c (if dflt then g else some s) xs n
-        | .obj ms' =>
-          match nodeHead c false ms' n with
-          | none => none
-          | some (c', s', n1, _) => evalMembers c' (if dflt then g else some s) s' false ms' n1
-        | _ => none
-      | .prop p td =>
-        match v with
-        | .arr xs =>
-          if td.cont = .list then evalList c td g s p xs n else evalItems c td g s p xs n
-        | .obj ms' =>
-          if td.cont = .language then (evalLangMap s p g ms').map fun qs => (qs, n)
-          else if td.cont = .list && !hasKey kList ms' then
-            list1Wrap s p g n (evalItem c td g (.bnode (.fresh n)) rdfFirst (.obj ms') (n + 1))
-          else evalItem c td g s p (.obj ms') n
-        | x =>
-          if td.cont = .list then
-            if listItemOK c x then list1Wrap s p g n (evalItem c td g (.bnode (.fresh n)) rdfFirst x (n + 1)) else none
-          else evalItem c td g s p x n
-      | .ignored => some ([], n)
-      | .outside => none
-    match here with
-    | none => none
-    | some (q1, n1) =>
-      match evalMembers c g s dflt ms n1 with
-      | none => none
-      | some (q2, n2) => some (q1 ++ q2, n2)
+  | (k, .arr xs) :: ms, n =>
+    andThen
+      (match classifyKey c k with
+       | .context => some ([], n)
+       | .id => some ([], n)
+       | .type => typeQuads c g s (.arr xs) n
+       | .graph => evalNodes c (if dflt then g else some s) xs n
+       | .prop p td => if td.cont = .list then evalList c td g s p xs n else evalItems c td g s p xs n
+       | .ignored => some ([], n)
+       | .outside => none)
+      (fun n1 => evalMembers c g s dflt ms n1)
+  | (k, .obj ms') :: ms, n =>
+    andThen
+      (match classifyKey c k with
+       | .context => some ([], n)
+       | .id => some ([], n)
+       | .type => typeQuads c g s (.obj ms') n
+       | .graph =>
+         match nodeHead c false ms' n with
+         | none => none
+         | some (c', s', n1, _) => evalMembers c' (if dflt then g else some s) s' false ms' n1
+       | .prop p td =>
+         if td.cont = .language then (evalLangMap s p g ms').map fun qs => (qs, n)
+         else if td.cont = .list && !hasKey kList ms' then
+           list1Wrap s p g n (evalItem c td g (.bnode (.fresh n)) rdfFirst (.obj ms') (n + 1))
+         else evalItem c td g s p (.obj ms') n
+       | .ignored => some ([], n)
+       | .outside => none)
+      (fun n1 => evalMembers c g s dflt ms n1)
+  | (k, x) :: ms, n =>
+    andThen
+      (match classifyKey c k with
+       | .context => some ([], n)
+       | .id => some ([], n)
+       | .type => typeQuads c g s x n
+       | .graph => none
+       | .prop p td =>
+         if td.cont = .list then
+           if listItemOK c x then list1Wrap s p g n (evalItem c td g (.bnode (.fresh n)) rdfFirst x (n + 1)) else none
+         else evalItem c td g s p x n
+       | .ignored => some ([], n)
+       | .outside => none)
+      (fun n1 => evalMembers c g s dflt ms n1)
 
 /-- the node objects of an array (top level, `@graph`) -/
 def evalNodes (c : Ctx) (g : Option T) : List Json → Nat → Option (List Q × Nat)
   | [], n => some ([], n)
   | .obj ms :: rest, n =>
-    match nodeHead c false ms n with
-    | none => none
-    | some (c', s, n0, _) =>
-      match evalMembers c' g s false ms n0 with
-      | none => none
-      | some (q1, n1) =>
-        match evalNodes c g rest n1 with
-        | none => none
-        | some (q2, n2) => some (q1 ++ q2, n2)
+    andThen
+      (match nodeHead c false ms n with
+       | none => none
+       | some (c', s, n0, _) => evalMembers c' g s false ms n0)
+      (fun n1 => evalNodes c g rest n1)
   | _ :: _, _ => none
 
 def evalItems (c : Ctx) (td : TermDef) (g : Option T) (s : T) (p : Str) : List Json → Nat → Option (List Q × Nat)
   | [], n => some ([], n)
-  | x :: xs, n =>
-    match evalItem c td g s p x n with
-    | none => none
-    | some (q1, n1) =>
-      match evalItems c td g s p xs n1 with
-      | none => none
-      | some (q2, n2) => some (q1 ++ q2, n2)
+  | x :: xs, n => andThen (evalItem c td g s p x n) (fun n1 => evalItems c td g s p xs n1)
 
 /-- one value of property `p` of subject `s`: `null`, a scalar, a value object, a list object, a node
     object (embedded or a reference) -/
-def evalItem (c : Ctx) (td : TermDef) (g : Option T) (s : T) (p : Str) (j : Json) (n : Nat) : Option (List Q × Nat) :=
-  match j with
-  | .null => some ([], n)
-  | .arr _ => none
-  | .obj ms =>
-    if hasKey kValue ms then
-      (evalValueObj c ms).map fun
-        | some o => ([quad s p o g], n)
-        | none => ([], n)
-    else if hasKey kList ms then
-      match ms with
-      | [(_, .arr xs)] => evalList c td g s p xs n
-      | [(_, .null)] => none
-      | [(_, x)] => if listItemOK c x then list1Wrap s p g n (evalItem c td g (.bnode (.fresh n)) rdfFirst x (n + 1)) else none
-      | _ => none
+def evalItem (c : Ctx) (td : TermDef) (g : Option T) (s : T) (p : Str) : Json → Nat → Option (List Q × Nat)
+  | .null, n => some ([], n)
+  | .arr _, _ => none
+  | .obj [(k, .arr xs)], n =>
+    if k = kValue then none
+    else if k = kList then evalList c td g s p xs n
+    else if k = kSet then none
+    else
+      match nodeHead c false [(k, .arr xs)] n with
+      | none => none
+      | some (c', o, n0, _) =>
+        andThen (evalMembers c' g o false [(k, .arr xs)] n0) (fun n1 => some ([quad s p o g], n1))
+  | .obj [(k, x)], n =>
+    if k = kValue then valueObjQuads c g s p [(k, x)] n
+    else if k = kList then
+      (if listItemOK c x then list1Wrap s p g n (evalItem c td g (.bnode (.fresh n)) rdfFirst x (n + 1)) else none)
+    else if k = kSet then none
+    else
+      match nodeHead c false [(k, x)] n with
+      | none => none
+      | some (c', o, n0, _) =>
+        andThen (evalMembers c' g o false [(k, x)] n0) (fun n1 => some ([quad s p o g], n1))
+  | .obj ms, n =>
+    if hasKey kValue ms then valueObjQuads c g s p ms n
+    else if hasKey kList ms then none
     else if hasKey kSet ms then none
     else
       match nodeHead c false ms n with
       | none => none
       | some (c', o, n0, _) =>
-        match evalMembers c' g o false ms n0 with
-        | none => none
-        | some (qs, n1) => some (qs ++ [quad s p o g], n1)
-  | x => (evalScalar c td x).map fun o => ([quad s p o g], n)
+        andThen (evalMembers c' g o false ms n0) (fun n1 => some ([quad s p o g], n1))
+  | x, n => (evalScalar c td x).map fun o => ([quad s p o g], n)
 
 /-- an RDF list with items `xs` as the value of `p` -/
 def evalList (c : Ctx) (td : TermDef) (g : Option T) (s : T) (p : Str) : List Json → Nat → Option (List Q × Nat)
